@@ -344,6 +344,7 @@ class SFile(object):
             bad = False
             if self._delim is None:
                 if self._dtype != data.dtype:
+                    mess = "%s vs %s" % (self._dtype.descr, data.dtype.descr)
                     bad = True
             else:
                 names = self._dtype.names
@@ -385,11 +386,11 @@ class SFile(object):
                                 bad = True
                                 break
 
-                if bad:
-                    raise ValueError(
-                        "attempt to write an incompatible "
-                        "data type: " + mess
-                    )
+            if bad:
+                raise ValueError(
+                    "attempt to write an incompatible "
+                    "data type: " + mess
+                )
 
     def write(self, data, header=None):
         """
